@@ -535,6 +535,29 @@ def main():
                 .create_ask("seller", [(10, "base")], A1, "base", dn, "2", 10).env(markers={dn: then}) \
                 .match("exec", A1, B1, "2", 3).rev("reject_bid", "exec", B1, 2).exits(owner_a="seller", owner_b="buyer") \
                 .rev("cancel_bid", "buyer", B1).write()
+    # fee = rate * (price * size): re-associating the product loses digits when rate and price need more than 28 decimals
+    # together, and a large size turns the loss into a unit (directed: random generation cannot be expected to find these)
+    H("c09_ask_fee_association_tiny_rate_tiny_price", "rate 1e-15, price 4e-14, size 1.25e28: the exact fee is 0.5").env() \
+        .inst(afr="0.000000000000001", afa="feea", precision=14, increment=10 ** 14) \
+        .create_ask("seller", [(125 * 10 ** 26, "base")], A1, "base", "q", "0.00000000000004", 125 * 10 ** 26) \
+        .create_bid("buyer", [(5 * 10 ** 14, "q")], B1, None, "0.00000000000004", "q", 5 * 10 ** 14, 125 * 10 ** 26) \
+        .match("exec", A1, B1, "0.00000000000004", 125 * 10 ** 26).write()
+    H("c02_ask_fee_association_18_decimal_price", "rate 1.6e-10, price 3e-18, size 1e27: the exact fee is 0.48").env() \
+        .inst(afr="0.00000000016", afa="feea", precision=18, increment=10 ** 18) \
+        .create_ask("seller", [(10 ** 27, "base")], A1, "base", "q", "0.000000000000000003", 10 ** 27) \
+        .create_bid("buyer", [(3 * 10 ** 9, "q")], B1, None, "0.000000000000000003", "q", 3 * 10 ** 9, 10 ** 27) \
+        .match("exec", A1, B1, "0.000000000000000003", 10 ** 27).write()
+    H("c07_bid_fee_association_powers_of_two", "rate 2^-19, price 2^-18, size 2^18 * 10^18: the exact fee is 1907348632812 1/2").env() \
+        .inst(bfr="0.0000019073486328125", bfa="feeb", precision=18, increment=10 ** 18) \
+        .create_bid("buyer", [(10 ** 18 + 1907348632813, "q")], B1, (1907348632813, "q"), "0.000003814697265625", "q", 10 ** 18, 2 ** 18 * 10 ** 18) \
+        .create_bid("buyer", [(10 ** 18 + 1907348632812, "q")], B2, (1907348632812, "q"), "0.000003814697265625", "q", 10 ** 18, 2 ** 18 * 10 ** 18).write()
+    # the bid's share of a fill formed in 96 bits (recorded class K_inexact); a cheaper ask is executed at its own price by an
+    # off-lot size: (bid price - price) * size = 10.000000000000000001 exactly, bid price * size is judged whole
+    H("c03_inexact_bid_share_with_improvement", "bid price 1.000000000000000001, fill of 1e19+1 at the ask's price 1").env() \
+        .inst(precision=18, increment=10 ** 18) \
+        .create_bid("buyer", [(2 * 10 ** 19 + 20, "q")], B1, None, "1.000000000000000001", "q", 2 * 10 ** 19 + 20, 2 * 10 ** 19) \
+        .create_ask("seller", [(2 * 10 ** 19, "base")], A1, "base", "q", "1", 2 * 10 ** 19) \
+        .match("exec", A1, B1, "1", 10 ** 19 + 1).match("exec", A1, B1, "1", 10 ** 19).exits(owner_a="seller", owner_b="buyer").write()
     h = H("c14_c15_schema_words_and_undeclared_members", "a legacy book whose records carry a member the struct does not declare, owners named like schema fields migration").env()
     h.lines += ["SEEDCFG ats ~ base cv q appr exec - feeb=0.1 [] [] 0 1", "SEEDVER ats_smart_contract 0.18.2",
                 "SEEDBID2X %s %s events_desk base 10 q 20 2:q 2 []" % (enc(B1), enc(B1)),
